@@ -3,7 +3,7 @@
 
 def _c19_case(c):
     p = c.split(" ")
-    if p[0] in ("M", "T"):
+    if p[0] in ("M", "T", "U", "L"):
         return {"op": p[0], "hex": p[1]}
     if p[0] == "K":
         return {"op": "K", "spec": unhex(p[-1]).encode("latin-1").decode("utf-8")}
@@ -54,7 +54,7 @@ def _vm_store(t):
     out = []
     for e in es:
         f = e.split(":")
-        out.append("(mkEntry %s %s (%s)%%Z [] %s)" % (_vm_str(f[0]), _vm_str(f[1]), f[2], "true" if len(f) > 3 else "false"))
+        out.append("(mkEntry %s %s (%s)%%Z [] %s)" % (_vm_str(f[0]), _vm_str(f[1]), f[2], _vm_str(f[3]) if len(f) > 3 else "(@nil N)"))
     return "[" + "; ".join(out) + "]"
 
 
@@ -71,7 +71,7 @@ def _vm_events(t):
     for e in evs:
         f = e.split(":")
         if f[0] == "X":
-            out.append("(VX %s %s (%s)%%Z)" % (_vm_str(f[1]), _vm_str(f[2]), f[3]))
+            out.append("(VX %s %s (%s)%%Z %s)" % (_vm_str(f[1]), _vm_str(f[2]), f[3], _vm_ann(f[4])))
         elif f[0] == "PB":
             out.append("(VPB %s %s (%s)%%Z %s)" % (_vm_str(f[1]), _vm_str(f[2]), f[3], _vm_ann(f[4])))
         else:
@@ -94,10 +94,10 @@ Fixpoint vm_ins (p : kv) (l : list kv) : list kv :=
   end.
 Definition vm_sort (l : list kv) : list kv := fold_right vm_ins [] l.
 Definition vm_desc (d : desc) : desc := mkDesc (d_mt d) (d_dg d) (d_sz d) (vm_sort (d_ann d)) (d_at d) (d_extra d).
-Inductive vev := VX (mt dg : str) (sz : Z) | VPB (mt dg : str) (sz : Z) (ann : list kv) | VPM (mt at_ : str) (ann : list kv).
+Inductive vev := VX (mt dg : str) (sz : Z) (ann : list kv) | VPB (mt dg : str) (sz : Z) (ann : list kv) | VPM (mt at_ : str) (ann : list kv).
 Definition vm_ev (e : event) : vev :=
   match e with
-  | EvExists d => VX (d_mt d) (d_dg d) (d_sz d)
+  | EvExists d => VX (d_mt d) (d_dg d) (d_sz d) (vm_sort (d_ann d))
   | EvPush RBlob d _ => VPB (d_mt d) (d_dg d) (d_sz d) (vm_sort (d_ann d))
   | EvPush RManifest d _ => VPM (d_mt d) (d_at d) (vm_sort (d_ann d))
   end.
@@ -108,7 +108,8 @@ Inductive vres :=
 Definition vm_view (p : state * result) : vres * list vev :=
   (match snd p with
    | Err e => VErr e
-   | Ok d m => VOk (d_mt d) (d_at d) (vm_sort (d_ann d)) (m_kind m) (option_map vm_desc (m_config m))
+   | Ok d m0 => let m := san_manifest m0 in
+               VOk (d_mt d) (d_at d) (vm_sort (d_ann d)) (m_kind m) (option_map vm_desc (m_config m))
                    (option_map (map vm_desc) (m_layers m)) (option_map vm_desc (m_subject m)) (m_at m)
                    (vm_sort (m_ann m))
    end, map vm_ev (s_events (fst p))).
@@ -123,6 +124,10 @@ def _vm_goal(case, out):
     o = out.split(" ")
     if p[0] == "M":
         return "valid_media_type %s = %s" % (_vm_str(p[1]), "true" if o[0] == "1" else "false")
+    if p[0] == "L":
+        return "rfc3339_ok_prefix %s = %s" % (_vm_str(p[1]), "true" if o[0] == "1" else "false")
+    if p[0] == "U":
+        return "utf8_san %s = %s" % (_vm_str(p[1]), _vm_str(o[0]))
     if p[0] == "T":
         return "rfc3339_ok %s = %s" % (_vm_str(p[1]), "true" if o[0] == "1" else "false")
     if p[0] != "K":
@@ -135,7 +140,7 @@ def _vm_goal(case, out):
                _vm_list(p[7]), _vm_ann(p[8]), _vm_odesc(p[9]), _vm_ann(p[10])))
     if o[0] == "ERR":
         e = {"unsupported": "EUnsupported", "invalid-media-type": "EInvalidMediaType", "missing-artifact-type": "EMissingArtifactType",
-             "invalid-datetime": "EInvalidDateTime", "injected": "EInjected"}[o[1]]
+             "invalid-datetime": "EInvalidDateTime", "storage-error": "EInjected"}[o[1]]
         return "vm_view %s = (VErr %s, %s)" % (call, e, _vm_events(o[3]))
     mt, at, ann = o[1].split(":")
     f = dict(t.split("=", 1) for t in o[2:8])
@@ -147,7 +152,7 @@ def _vm_goal(case, out):
 
 def _c19_vm_sample(d, tier, coq, build):
     import os, subprocess, collections
-    quota = {"K": 250, "M": 120, "T": 120} if tier == "thorough" else {"K": 30, "M": 15, "T": 15}
+    quota = {"K": 250, "M": 120, "T": 120, "U": 60, "L": 60} if tier == "thorough" else {"K": 30, "M": 15, "T": 15, "U": 10, "L": 10}
     outs = {}
     with open(os.path.join(d, "model.txt")) as f:
         for l in f:
@@ -194,7 +199,7 @@ def _c19_vm_sample(d, tier, coq, build):
 
 CONFIG = {
     "properties_file": "Properties/C19.v",
-    "proof_files": ["Base/Prelude.v", "Base/Regex.v", "Base/StrCheck.v", "Proofs/Pack.v", "Proofs/PackTime.v"],
+    "proof_files": ["Base/Prelude.v", "Base/Regex.v", "Base/StrCheck.v", "Proofs/Pack.v", "Proofs/PackTime.v", "Proofs/PackJson.v"],
     "model_files": ["Generated/GC19.v", "Model/Pack.v"],
     "extract": "XC19.v",
     "ml_main": "c19_main.ml",
@@ -202,17 +207,17 @@ CONFIG = {
     "case_to_replay": _c19_case,
     "post_model": _c19_vm_sample,
     "assumptions": [
-        "json.Marshal of the manifest document is a parameter (marshal : manifest -> str); the model's manifest record is the JSON-level document after omitempty; the harness re-parses the stored bytes with encoding/json and compares the document field by field",
+        "json.Marshal of the manifest document is a parameter (marshal : manifest -> str); the model's manifest record is the JSON-level document after omitempty; what can be read back is the NAMED premise json_roundtrip of C19_stored_parses: unmarshal (marshal m) = Some (san_manifest m), where utf8_san (executable, compared with encoding/json on every run, case kind U) is json's coercion of invalid UTF-8 to U+FFFD; the harness re-parses the stored bytes with encoding/json and compares the document field by field; strings that are not valid UTF-8 are generated (annotation keys/values, config annotations, artifactType) and judged: known finding non-utf8-lossy; non-UTF-8 inside caller-supplied descriptors (layers/subject/config) and colliding keys after coercion are not generated",
         "C19_annotation_order_independent assumes marshal_perm: the marshalled bytes do not depend on the order in which a map's entries are listed (encoding/json sorts map keys); the harness checks it on every successful call (annotations re-inserted in reverse order into maps of another capacity; raw stored JSON walked for sorted annotation keys)",
         "the digest function is a parameter H with the single hypothesis H \"{}\" = sha256:44136f...; collision-freeness of H is an explicit premise of the clauses that conclude equality of stored bytes",
-        "the validation of a caller-supplied created value is modelled as the code is written: time.Parse(time.RFC3339, _) = the lenient recogniser rfc3339_gen false (step-by-step mirror of time.parse for that layout), followed by the explicit strict checks of validateRFC3339, which the translator (kind strictchecks) re-reads from pack.go on every run into Generated/GC19.v; the combination is proved equal to the strict recogniser and to the RFC 3339 section 5.6 grammar with upper-case T/Z and no leap second; the lenient recogniser itself is tied to the real time.Parse of go1.26.8 only by the correspondence run (observed through PackManifest); time.Now().UTC().Format(RFC3339) is the parameter `now` (the harness checks the generated value parses and lies within the call)",
+        "the validation of a caller-supplied created value is modelled as the code is written: time.Parse(time.RFC3339, _) = the lenient recogniser rfc3339_gen false (step-by-step mirror of time.parse for that layout), followed by the explicit strict checks of validateRFC3339, which the translator (kind strictchecks) re-reads from pack.go on every run into Generated/GC19.v; the combination is proved equal to the strict recogniser and to the RFC 3339 section 5.6 grammar with upper-case T/Z and no leap second; the lenient recogniser is compared with the real time.Parse of go1.26.8 on every run (case kind L), the combination with pack.go's own validation observed through PackManifest (case kind T); time.Now().UTC().Format(RFC3339) is the parameter `now` (the harness checks the generated value parses and lies within the call)",
         "Go regexp semantics for the ASCII-only, fully anchored mediaTypeRegexp = Base/Regex.v Lang (proved equal to the derivative matcher)",
-        "the target is modelled as a content store keyed by digest (OCI layout), by media type+digest+size (memory), by digest within the manifest/blob namespace (registry) or as a file store (named files answer Exists by digest, unnamed content lives in the full-key fallback; descriptors Pack itself pushes carry no title annotation), optionally implementing Exists, possibly pre-filled, with at most one injected failing storage operation; stores verify pushed content, which the model omits because every push of Pack is proved content-consistent (C19_store_stays_content_addressed)",
+        "the target is modelled as a content store keyed by digest (OCI layout), by media type+digest+size (memory), by digest within the manifest/blob namespace (registry) or as a file store created by file.New with default options (a descriptor with a title annotation -- ConfigAnnotations and ManifestAnnotations are caller-controlled -- is a named file: found by digest once its name is taken, refused with ErrDuplicateName when the name is taken at Push; unnamed content lives in the full-key fallback; NOT modelled / not generated: Store.IgnoreNoName (pushed unnamed content is dropped, so nothing Pack pushed is there), the io.deis.oras.content.unpack annotation, DisableOverwrite/AllowPathTraversalOnWrite), optionally implementing Exists, possibly pre-filled, with at most one injected failing storage operation (the harness makes it return a plain error or one that also is ErrNotFound / ErrDuplicateName / ErrStoreClosed / ErrUnsupported) besides the file store's own refusal of a taken name; every other target keeps what is pushed; stores verify pushed content, which the model omits because every push of Pack is proved content-consistent (C19_store_stays_content_addressed)",
         "constants of image-spec v1.1.1 (media types, annotation key, DescriptorEmptyJSON) are hand-written in the model and tied by the correspondence run; the oras-go constants and mediaTypeRegexp are regenerated from pack.go / internal/spec/artifact.go",
         "a config blob whose caller-chosen media type is itself a manifest media type (artifactType = application/vnd.oci.image.manifest.v1+json under v1.0 / Pack) is present in the target but is walked as a manifest by CopyGraph; the copy oracle does not judge such calls (caller inconsistency); the registry target is a minimal in-process distribution endpoint (no manifest validation, referrers API reported as supported)",
     ],
-    "level_text": "Coq theorems for all inputs: mediaTypeRegexp (re-translated from pack.go on every run) = RFC 6838 restricted-name/restricted-name; every run of the four packers over any target (key discipline, Exists or not, any prior content, any single storage fault) has one of five outcomes; rejections (invalid media type, subject under v1.0, missing artifact type, unknown version) leave the state untouched; the created validation accepts exactly the RFC 3339 date-times with upper-case T/Z and no leap second, so a created value that is not RFC 3339 gives an error with no manifest push and only the blob {} added (the pre-fix validation, time.Parse alone, is refuted by a witness); on success the manifest equals the requested document with the documented placeholders and a parsing created annotation, the descriptor is digest/size/media type of the marshalled bytes and is stored, every invented blob is stored with content {}, every successor is caller-supplied or stored, content-addressed stores stay so, a fixed created annotation makes descriptor and manifest independent of target, clock and faults, and (json.Marshal sorting map keys) of the order in which annotations are listed",
-    "level_note": "json.Marshal and the digest are parameters (H \"{}\" fixed; collision-freeness an explicit premise where bytes are compared); the created validation is modelled by a recogniser (proved = RFC 3339 subset) validated against the real code on every run; image-spec constants hand-written; targets: memory, OCI layout, file store, remote.Repository over an in-process distribution endpoint; calls that type the invented config as a manifest are not judged by the copy oracle",
+    "level_text": "Coq theorems for all inputs: mediaTypeRegexp (re-translated from pack.go on every run) = RFC 6838 restricted-name/restricted-name; every run of the four packers over any target (key discipline, Exists or not, any prior content, any single storage fault) has one of five outcomes; PackManifest's rejections (invalid media type, subject under v1.0, missing artifact type, unknown version) leave the state untouched (Pack rejects nothing: stated as a deviation); the created validation accepts exactly the RFC 3339 date-times with upper-case T/Z and no leap second, so a created value that is not RFC 3339 gives an error with no manifest push and only the blob {} added (the pre-fix validation, time.Parse alone, is refuted by a witness); on success the manifest equals the requested document with the documented placeholders and a parsing created annotation, the descriptor is digest/size/media type of the marshalled bytes and is stored, every invented blob is stored with content {}, every successor is caller-supplied or stored, content-addressed stores stay so, a fixed created annotation makes descriptor and manifest independent of target, clock and faults, and (json.Marshal sorting map keys) of the order in which annotations are listed",
+    "level_note": "DEVIATIONS: (1) the rejection clauses hold for PackManifest only -- Pack (deprecated) validates nothing and accepts any string as media type (C19_pack_rejects_nothing_deviation, C19_pack_accepts_invalid_media_type_deviation); for v1.0 with a ConfigDescriptor an invalid artifactType is ignored as documented; (2) known finding non-utf8-lossy: strings that are not valid UTF-8 are coerced by json.Marshal, so 'exactly the requested annotations' and, for Pack, 'can be copied' fail (C19_lossy_json_refuted); the parse clause is C19_stored_parses under the named premise json_roundtrip. ORACLE-ONLY: 'the result can be copied' is the CopyGraph oracle (run when every caller-supplied descriptor is backed; not judged when the caller types the invented config as a manifest); C19_closed proves the membership form (every successor is caller-supplied or stored). json.Marshal and the digest are parameters (H \"{}\" fixed; collision-freeness an explicit premise where bytes are compared); the created validation = lenient time.Parse mirror (compared with time.Parse every run) + checks translated from pack.go, proved = RFC 3339 subset; image-spec constants hand-written; targets: memory, OCI layout, file store (file.New defaults, titled descriptors included), remote.Repository over an in-process distribution endpoint; the storage-failure model is one failing operation of any error class plus the file store's ErrDuplicateName",
     "technique": "machine-checked proof in Coq + translator-regenerated definitions + model/implementation correspondence",
-    "explanation": "theorems over all inputs, targets, prior contents and single storage faults about the model of pack.go whose regex/constants are regenerated from the source; differential run of model vs PackManifest/Pack over recording memory/OCI/file targets, exhaustive small-alphabet + boundary + mutated media types and timestamps against validateMediaType (through PackManifest) and time.Parse; independent oracle: RFC 6838 recogniser, stored bytes re-fetched, re-hashed and re-parsed against the generator's ground truth, invented blobs fetched, CopyGraph into an empty store, repeat calls for determinism, no push on rejection",
+    "explanation": "theorems over all inputs, targets, prior contents and single storage faults about the model of pack.go whose regex/constants are regenerated from the source; differential run of model vs PackManifest/Pack over recording memory/OCI/file targets, exhaustive small-alphabet + boundary + mutated media types and timestamps against validateMediaType and validateRFC3339 (both through PackManifest) and against time.Parse alone; byte strings against json's UTF-8 coercion; enumerated faults of five error classes on all four target kinds; coverage floors; independent oracle: RFC 6838 recogniser, stored bytes re-fetched, re-hashed and re-parsed against the generator's ground truth, invented blobs fetched, CopyGraph into an empty store, repeat calls for determinism, no push on rejection",
 }
